@@ -406,6 +406,14 @@ func (x *g) genAttr(depth int, used map[string]bool, self string) *spec.Attr {
 			x.s.AddFeature("default-" + rt.Kind)
 		}
 	}
+	// defaults on collections of plain primitives (an unset collection takes the default, an
+	// explicitly empty one must stay empty)
+	if (rt.Kind == spec.Array || rt.Kind == spec.Map) && a.Type.Kind != spec.Ref && a.Val == nil && x.chance(1, 4) {
+		if d := x.genCollectionDefault(rt); d != nil {
+			a.Default, a.HasDef = d, true
+			x.s.AddFeature("default-" + rt.Kind)
+		}
+	}
 	if x.o.Profile == "naming" || x.chance(1, 25) {
 		if x.chance(1, 5) && a.Type.Kind != spec.Object {
 			a.Meta = map[string][]string{"struct:field:name": {"Custom" + strings.Title(spec.Norm(a.Name))}}
@@ -645,6 +653,41 @@ func leafNum(kind string, f float64) string {
 func LeafNum(kind string, f float64) string { return leafNum(kind, f) }
 
 // genDefault draws a default satisfying v.
+// genCollectionDefault draws a non-empty default for an array or string-keyed map whose
+// elements are plain primitives without validations (nil when the type is anything else).
+func (x *g) genCollectionDefault(rt *spec.Type) any {
+	plain := func(a *spec.Attr) string {
+		if a == nil || a.Type == nil || a.Val != nil || a.Type.Kind == spec.Ref {
+			return ""
+		}
+		switch a.Type.Kind {
+		case spec.String, spec.Int, spec.Int32, spec.Int64, spec.UInt32, spec.UInt64, spec.Float64, spec.Boolean:
+			return a.Type.Kind
+		}
+		return ""
+	}
+	ek := plain(rt.Elem)
+	if ek == "" {
+		return nil
+	}
+	n := x.r.Range(1, 2)
+	if rt.Kind == spec.Array {
+		out := make([]any, n)
+		for i := range out {
+			out[i] = x.genDefault(ek, nil)
+		}
+		return out
+	}
+	if plain(rt.Key) != spec.String {
+		return nil
+	}
+	m := map[string]any{}
+	for i := 0; i < n; i++ {
+		m["s:"+[]string{"base", "extra"}[i]] = x.genDefault(ek, nil)
+	}
+	return vtree.MkMap(m)
+}
+
 func (x *g) genDefault(kind string, v *spec.Val) any {
 	if v != nil && len(v.Enum) > 0 {
 		return v.Enum[x.r.Intn(len(v.Enum))]
